@@ -18,7 +18,7 @@
 (* block to an observed end; any end in (from, next block start] is        *)
 (* admissible, the canonical one is the offending mark.                    *)
 (***************************************************************************)
-EXTENDS Naturals, Sequences, FiniteSets, TLC
+EXTENDS Naturals, Sequences, FiniteSets, SequencesExt, FiniteSetsExt, TLC
 
 ATs   == {"ATE", "ATC", "ATP", "ATS"}
 Ws    == {"SP", "NL"}
@@ -26,16 +26,17 @@ IsAT(k) == k \in ATs
 MinOf(a, b) == IF a <= b THEN a ELSE b
 
 \* ---- ranges -------------------------------------------------------------------
-RECURSIVE SkipWsFwd(_, _, _)
-SkipWsFwd(toks, a, b) == IF a < b /\ toks[a].k \in Ws THEN SkipWsFwd(toks, a + 1, b) ELSE a
-RECURSIVE SkipWsBwd(_, _, _)
-SkipWsBwd(toks, a, b) == IF a < b /\ toks[b - 1].k \in Ws THEN SkipWsBwd(toks, a, b - 1) ELSE b
+\* (first-order helpers are expressed with the Java-backed operators of the CommunityModules so that inputs of
+\* 10^5 tokens are evaluated iteratively, without deep recursion)
+NonWs(t) == t.k \notin Ws
+IsATTok(t) == IsAT(t.k)
+SkipWsFwd(toks, a, b) == LET j == SelectInSubSeq(toks, a, b - 1, NonWs) IN IF j = 0 THEN b ELSE j
+SkipWsBwd(toks, a, b) == LET j == SelectLastInSubSeq(toks, a, b - 1, NonWs) IN IF j = 0 THEN a ELSE j + 1
 \* str.strip() of the text of [a, b)
 Trim(toks, a, b) == LET f == SkipWsFwd(toks, a, b) IN <<f, SkipWsBwd(toks, f, b)>>
-RECURSIVE CountNL(_, _, _)
-CountNL(toks, a, b) == IF a >= b THEN 0 ELSE (IF toks[a].k = "NL" THEN 1 ELSE 0) + CountNL(toks, a + 1, b)
-RECURSIVE NextAT(_, _)
-NextAT(toks, i) == IF i > Len(toks) THEN Len(toks) + 1 ELSE IF IsAT(toks[i].k) THEN i ELSE NextAT(toks, i + 1)
+CountNL(toks, a, b) == Quantify(a..(b - 1), LAMBDA j : toks[j].k = "NL")
+NextAT(toks, i) == LET j == SelectInSubSeq(toks, i, Len(toks), IsATTok) IN IF j = 0 THEN Len(toks) + 1 ELSE j
+NoATIn(toks, a, b) == SelectInSubSeq(toks, a, b - 1, IsATTok) = 0
 \* the text of a range as a comparable value (token text ids)
 Sig(toks, r) == [j \in 1..(r[2] - r[1]) |-> toks[r[1] + j - 1].w]
 
@@ -55,8 +56,11 @@ EmitIC(toks, s, i) ==
     IF s.ics = 0 \/ r[1] >= r[2] THEN s
     ELSE Emit(s, [t |-> "icomment", from |-> r[1], to |-> r[2], line |-> s.icl + CountNL(toks, s.ics, r[1])])
 
-\* duplicate field keys of an entry (set of key texts occurring more than once)
-DupKeys(toks, fs) == {Sig(toks, fs[i].key) : i \in {x \in DOMAIN fs : \E y \in DOMAIN fs : y < x /\ Sig(toks, fs[y].key) = Sig(toks, fs[x].key)}}
+\* duplicate field keys of an entry (set of key texts occurring more than once), one pass as in the code
+DupKeys(toks, fs) ==
+    FoldLeft(LAMBDA acc, f : LET k == Sig(toks, f.key) IN
+                             IF k \in acc.seen THEN [acc EXCEPT !.dups = @ \cup {k}] ELSE [acc EXCEPT !.seen = @ \cup {k}],
+             [seen |-> {}, dups |-> {}], fs).dups
 
 EntryBlock(toks, s, fs, to) ==
     [t |-> IF DupKeys(toks, fs) = {} THEN "entry" ELSE "dupfield",
@@ -64,7 +68,8 @@ EntryBlock(toks, s, fs, to) ==
 
 \* admissible end of a failed block that started at s.from and was aborted at token i (i = n+1 at end of input)
 FailEnd(toks, fe, s, i) ==
-    IF s.from \in DOMAIN fe /\ fe[s.from] > s.from /\ fe[s.from] <= NextAT(toks, i) THEN fe[s.from]
+    IF s.from \in DOMAIN fe /\ fe[s.from] > s.from /\ fe[s.from] <= Len(toks) + 1
+       /\ (fe[s.from] <= i \/ NoATIn(toks, i, fe[s.from])) THEN fe[s.from]
     ELSE MinOf(i, Len(toks) + 1)
 
 \* abort: emit the failed block, hand the mark back to "outside"
@@ -132,9 +137,13 @@ Step(toks, fe, s, i) ==
 
 \* end of input.  Failed blocks get their admissible end interval (lo, hi]: hi = next block start after the
 \* offending mark (known only now, when the whole input has been seen)
+\* (after a failed block the scanner is outside until the next @type token: that is the `from` of the next
+\* block that is not an implicit comment)
 WithBounds(toks, out) == [x \in DOMAIN out |->
-    IF out[x].t = "failed" THEN [t |-> "failed", from |-> out[x].from, to |-> out[x].to, line |-> out[x].line,
-                                 lo |-> out[x].from + 1, hi |-> NextAT(toks, out[x].ab)]
+    IF out[x].t = "failed"
+    THEN [t |-> "failed", from |-> out[x].from, to |-> out[x].to, line |-> out[x].line, lo |-> out[x].from + 1,
+          hi |-> IF x + 1 <= Len(out) /\ out[x + 1].t # "icomment" THEN out[x + 1].from
+                 ELSE IF x + 2 <= Len(out) THEN out[x + 2].from ELSE Len(toks) + 1]
     ELSE out[x]]
 Finish(toks, fe, s) ==
     LET n == Len(toks) IN
@@ -142,27 +151,31 @@ Finish(toks, fe, s) ==
                      ELSE IF s.ctl = "ERR" THEN s.out
                      ELSE LET a == Abort(toks, fe, s, n + 1) IN EmitIC(toks, a, n + 1).out)
 
-RECURSIVE RunFrom(_, _, _, _)
-RunFrom(toks, fe, s, i) == IF i > Len(toks) THEN s ELSE RunFrom(toks, fe, Step(toks, fe, s, i), i + 1)
+RunFrom(toks, fe, s, i) == FoldLeft(LAMBDA st, j : Step(toks, fe, st, j), s, [j \in 1..(Len(toks) + 1 - i) |-> i + j - 1])
 Run(toks, fe) == Finish(toks, fe, RunFrom(toks, fe, Init0, 1))
 NoFe == <<>>
 
 \* ---- properties of an output (declarative; C01, C03) --------------------------
 IsFailed(b) == b.t = "failed"
 \* C03 tiling: ranges in order, disjoint, non-empty; every token outside every range is whitespace
-Covered(out, j) == \E x \in DOMAIN out : out[x].from <= j /\ j < out[x].to
+AllWs(toks, a, b) == SelectInSubSeq(toks, a, b - 1, NonWs) = 0
 Tiling(toks, out) ==
     /\ \A x \in DOMAIN out : out[x].from < out[x].to /\ out[x].from >= 1 /\ out[x].to <= Len(toks) + 1
     /\ \A x \in DOMAIN out : x > 1 => out[x - 1].to <= out[x].from
-    /\ \A j \in DOMAIN toks : Covered(out, j) \/ toks[j].k \in Ws
-\* C03 lines: start_line = number of newlines before the block's first token
-Lines(toks, out) == \A x \in DOMAIN out : out[x].line = CountNL(toks, 1, out[x].from)
+    /\ \A x \in DOMAIN out : AllWs(toks, IF x = 1 THEN 1 ELSE out[x - 1].to, out[x].from)
+    /\ AllWs(toks, IF out = <<>> THEN 1 ELSE out[Len(out)].to, Len(toks) + 1)
+\* C03 lines: start_line = number of newlines before the block's first token (stated incrementally)
+Lines(toks, out) ==
+    \A x \in DOMAIN out :
+        out[x].line = (IF x = 1 THEN 0 ELSE out[x - 1].line) + CountNL(toks, IF x = 1 THEN 1 ELSE out[x - 1].from, out[x].from)
+\* the "=" that ends a field key is the first non-blank token after the key range; a field reports its line
+EqOf(toks, fl) == SkipWsFwd(toks, fl.key[2], Len(toks) + 1)
 FieldLines(toks, out) ==
     \A x \in DOMAIN out : out[x].t \in {"entry", "dupfield"} =>
         \A f \in DOMAIN out[x].fields :
-            LET fl == out[x].fields[f] IN
-            \* the "=" that ends the key is the first token after the key range that is not whitespace
-            fl.line = CountNL(toks, 1, SkipWsFwd(toks, fl.key[2], Len(toks) + 1))
+            LET fs == out[x].fields IN
+            fs[f].line = (IF f = 1 THEN out[x].line ELSE fs[f - 1].line)
+                         + CountNL(toks, IF f = 1 THEN out[x].from ELSE EqOf(toks, fs[f - 1]), EqOf(toks, fs[f]))
 \* C01: failed blocks carry their raw text (a non-empty range starting at an @type token)
 FailedCarry(toks, out) == \A x \in DOMAIN out : IsFailed(out[x]) => out[x].to > out[x].from /\ IsAT(toks[out[x].from].k)
 \* every non-comment block starts at an @type token and (unless failed) ends with "}"
